@@ -1,6 +1,7 @@
 import BeffVerif.Driver.ProgOps
 import BeffVerif.Model.SubSpec
 import BeffVerif.Model.SemType
+import BeffVerif.Model.RTPred
 /-! Driver handler for `(sub <id> (<decl>*) <A> <B> "<src>")` (C05). -/
 namespace BeffVerif.Driver
 open BeffVerif
@@ -44,5 +45,37 @@ def subOp (declsS : List Sexp) (aS bS : Sexp) : Sexp :=
     | .diag _ _ => .list [.atom "sub", .atom "diags"]
     | .nofuel => .atom "model-nofuel"
   | _, _, _ => .list [.atom "model-decode-error"]
+
+mutual
+def hasNullish : JsVal → Bool
+  | .null | .undef => true
+  | .arr xs => hasNullishL xs
+  | .obj ps => hasNullishP ps
+  | _ => false
+def hasNullishL : List JsVal → Bool
+  | [] => false
+  | x :: xs => hasNullish x || hasNullishL xs
+def hasNullishP : List (String × JsVal) → Bool
+  | [] => false
+  | (_, v) :: ps => hasNullish v || hasNullishP ps
+end
+
+/-- second channel of `(strict …)`: the reference on the same values — membership under the exact-scalar reading with
+structural objects (`e0`) and with exact objects, i.e. declared properties only at every depth (`e1`) — and the
+hypotheses the request violates -/
+def strictSpec (progS : Sexp) (valsS : List Sexp) : Sexp :=
+  match decProg progS, valsS.mapM decVal with
+  | some p, some vals =>
+    -- values with null / undefined anywhere are not judged: validators read the two leniently (S4), the reference
+    -- exactly, and the difference can move a value from one union member to another
+    let bits (exact : Bool) (t : Ty) : String :=
+      String.ofList (vals.map fun v => if hasNullish v then '?' else match SubSpec.memR p.decls exact 60 t v with
+        | some true => '1' | some false => '0' | none => '?')
+    let split := match compile p with
+      | .ok env parsers => parsers.any fun e => !(RT.noSplitIntersection env e.2)
+      | _ => false
+    .list [.list (.atom "spec" :: p.exports.map fun e => .list [.atom e.1, .str (bits false e.2), .str (bits true e.2)]),
+      .list (.atom "hyp-failed" :: (if split then [Sexp.atom "NoSplitIntersection"] else []))]
+  | _, _ => .list [.atom "spec-decode-error"]
 
 end BeffVerif.Driver
